@@ -645,7 +645,9 @@ func (a *sideEffectActor) prepare(c context.Context, outboxIRI *url.URL, activit
 			var val *url.URL
 			val, err = ToId(iter)
 			if err != nil {
-				return
+				// A value without an id names no recipient.
+				err = nil
+				continue
 			}
 			r = append(r, val)
 		}
@@ -655,7 +657,9 @@ func (a *sideEffectActor) prepare(c context.Context, outboxIRI *url.URL, activit
 			var val *url.URL
 			val, err = ToId(iter)
 			if err != nil {
-				return
+				// A value without an id names no recipient.
+				err = nil
+				continue
 			}
 			r = append(r, val)
 		}
@@ -665,7 +669,9 @@ func (a *sideEffectActor) prepare(c context.Context, outboxIRI *url.URL, activit
 			var val *url.URL
 			val, err = ToId(iter)
 			if err != nil {
-				return
+				// A value without an id names no recipient.
+				err = nil
+				continue
 			}
 			r = append(r, val)
 		}
@@ -675,7 +681,9 @@ func (a *sideEffectActor) prepare(c context.Context, outboxIRI *url.URL, activit
 			var val *url.URL
 			val, err = ToId(iter)
 			if err != nil {
-				return
+				// A value without an id names no recipient.
+				err = nil
+				continue
 			}
 			r = append(r, val)
 		}
@@ -685,7 +693,9 @@ func (a *sideEffectActor) prepare(c context.Context, outboxIRI *url.URL, activit
 			var val *url.URL
 			val, err = ToId(iter)
 			if err != nil {
-				return
+				// A value without an id names no recipient.
+				err = nil
+				continue
 			}
 			r = append(r, val)
 		}
@@ -857,7 +867,10 @@ func (a *sideEffectActor) dereferenceForResolvingInboxes(c context.Context, t Tr
 				var id *url.URL
 				id, err = ToId(iter)
 				if err != nil {
-					return
+					// A member without an id names no recipient;
+					// the other members still count.
+					err = nil
+					continue
 				}
 				moreActorIRIs = append(moreActorIRIs, id)
 			}
@@ -869,7 +882,10 @@ func (a *sideEffectActor) dereferenceForResolvingInboxes(c context.Context, t Tr
 				var id *url.URL
 				id, err = ToId(iter)
 				if err != nil {
-					return
+					// A member without an id names no recipient;
+					// the other members still count.
+					err = nil
+					continue
 				}
 				moreActorIRIs = append(moreActorIRIs, id)
 			}
